@@ -34,3 +34,20 @@ package sub
 //@ func (*pipe).receiver
 //@   at call:Clone#1 assert exists(i, 0, len(c.subs), isprefix(c.subs[i], m.Body))
 //@   at if#2.else assert !exists(i, 0, len(c.subs), isprefix(c.subs[i], m.Body))
+// ---- generated option contracts (tools/gen_option_contracts.py) ----
+//@ func (*context).SetOption
+//@   ensures name != protocol.OptionReadQLen && name != protocol.OptionRecvDeadline && name != protocol.OptionSubscribe && name != protocol.OptionUnsubscribe ==> result == protocol.ErrBadOption
+//@   ensures name == protocol.OptionReadQLen ==> (isnil(result) <==> is_int(value) && 0 <= int_of(value))
+//@   ensures name == protocol.OptionReadQLen && !isnil(result) ==> result == protocol.ErrBadValue
+//@   ensures name == protocol.OptionReadQLen && isnil(result) ==> c.recvQLen == int_of(value)
+//@   ensures name == protocol.OptionRecvDeadline ==> (isnil(result) <==> is_duration(value))
+//@   ensures name == protocol.OptionRecvDeadline && !isnil(result) ==> result == protocol.ErrBadValue
+//@   ensures name == protocol.OptionRecvDeadline && isnil(result) ==> c.recvExpire == int_of(value)
+//@   ensures !isnil(result) && (name == protocol.OptionReadQLen || name == protocol.OptionRecvDeadline) ==> unchanged(c.recvExpire, c.recvQLen)
+//@
+//@ func (*context).GetOption
+//@   ensures name != protocol.OptionReadQLen && name != protocol.OptionRecvDeadline ==> result1 == protocol.ErrBadOption && isnil(result0)
+//@   ensures name == protocol.OptionReadQLen ==> isnil(result1) && result0 == iface(c.recvQLen)
+//@   ensures name == protocol.OptionRecvDeadline ==> isnil(result1) && result0 == iface(c.recvExpire)
+//@
+// ---- end generated option contracts ----
